@@ -1,8 +1,11 @@
 #!/bin/bash
 # For every seeded/<id>: in a scratch worktree of /repo HEAD run the demo without the change (must pass), apply the change,
 # run the full pinned test suite (must pass) and the demo again (must fail).  Results go to seeded/<id>/confirm.txt
+# usage: tools/confirm_seeds.sh [seed ids...]   (default: all)
 cd /verif
-for d in seeded/C*; do
+mkdir -p /tmp/seedrun
+if [ $# -gt 0 ]; then dirs=$(for x in "$@"; do echo seeded/$x; done); else dirs=$(ls -d seeded/C*); fi
+for d in $dirs; do
   id=$(basename $d); W=/tmp/seedrun/confirm.$id
   git -C /repo worktree add -q --detach $W HEAD || continue
   demo=$(ls $d/demo_*.py | head -1)
